@@ -18,8 +18,8 @@ import os
 
 PROPERTY = "C27"
 TIERS = {
-    "quick": dict(seeds=320, soft_s=150, hard_s=480, per_seed_s=240, init_s=300, examples=25),
-    "thorough": dict(seeds=3200, soft_s=1500, hard_s=2400, per_seed_s=400, init_s=300, examples=60),
+    "quick": dict(seeds=320, soft_s=150, hard_s=1200, per_seed_s=600, init_s=600, examples=25),
+    "thorough": dict(seeds=6400, soft_s=1500, hard_s=3000, per_seed_s=900, init_s=600, examples=60),
 }
 RULE = ("one evaluation = one generated history (Hypothesis stateful example): a random architecture "
         "(2-5 components incl. containers with fanout; area/leak/energy/throughput given as numbers, as "
@@ -386,7 +386,8 @@ def _strategies():
     return params(), flags, einsum
 
 
-_LAST = {"params": None, "ops": None, "violation": None}
+_LAST = {"params": None, "ops": None, "violation": None, "t_first": None}
+SHRINK_BUDGET_S = 45.0
 _COUNT = {"examples": 0}
 
 
@@ -410,11 +411,19 @@ def _make_machine(workdir, agg):
             _COUNT["examples"] += 1
 
         def _do(self, op):
+            import time
             self.ops.append(op)
+            if _LAST["t_first"] is not None and time.perf_counter() - _LAST["t_first"] > SHRINK_BUDGET_S:
+                # shrink budget spent: let Hypothesis finish at once; the best real violation
+                # recorded so far is what gets reported
+                raise Violation("shrink_budget", "stop")
             try:
                 self.it.step(op)
             except Violation as v:
-                _LAST.update(params=self.params, ops=list(self.ops), violation=(v.cls, v.detail))
+                if _LAST["t_first"] is None:
+                    _LAST["t_first"] = time.perf_counter()
+                if _LAST["ops"] is None or len(self.ops) <= len(_LAST["ops"]):
+                    _LAST.update(params=self.params, ops=list(self.ops), violation=(v.cls, v.detail))
                 raise
 
         @precondition(lambda self: self.n_cost < 4)
@@ -459,7 +468,7 @@ def run_seed(seed, ctx):
     workdir = common.scratch_root()
     agg = {"stats": {}, "keys": set(), "shapes": set(), "sample": None}
     _COUNT["examples"] = 0
-    _LAST.update(params=None, ops=None, violation=None)
+    _LAST.update(params=None, ops=None, violation=None, t_first=None)
     Machine = _make_machine(workdir, agg)
     st = settings(max_examples=int(ctx["cfg"].get("examples", 25)), stateful_step_count=8,
                   database=None, deadline=None, report_multiple_bugs=False,
@@ -468,11 +477,11 @@ def run_seed(seed, ctx):
     viols = []
     try:
         run_state_machine_as_test(hseed(seed)(Machine), settings=st)
-    except Violation as v:
-        viols.append(_mk_violation(v.cls, v.detail))
+    except Violation:
+        viols.append(_mk_violation(*_LAST["violation"]))
     except Exception as e:
-        if _LAST["violation"] is not None and isinstance(e.__cause__, Violation):
-            viols.append(_mk_violation(*_LAST["violation"]))
+        if _LAST["violation"] is not None:
+            viols.append(_mk_violation(*_LAST["violation"]))  # e.g. Hypothesis' Flaky after the budget stop
         else:
             raise
     common.purge_scratch()
